@@ -292,7 +292,7 @@ func MakeSignatureContent(
 				GetValueT(frame, class, methodT.GetMethodName(), darg, methodT.IsStatic)
 
 			// *a or **a
-			if darg[0] == '*' {
+			if IsAsteriskPrefix(darg) {
 				switch darg[1] {
 				case '*':
 					dargT = MakeDoubleAsteriskKeyValue()
